@@ -11,6 +11,19 @@ import (
 	"github.com/lindb/lindb/pkg/lockers"
 )
 
+// verifFail lets the simulator fail a file-system operation with an I/O error (disk full, EIO) instead of running it.
+var verifFail func(op, path string) error
+
+// VerifSetFSFail sets the I/O error injection of the package's file-system seams (nil = none).
+func VerifSetFSFail(fail func(op, path string) error) { verifFail = fail }
+
+func failFS(op, path string) error {
+	if verifFail == nil {
+		return nil
+	}
+	return verifFail(op, path)
+}
+
 // Simulation hooks (build tag verif).
 
 type verifLock struct{}
@@ -31,6 +44,9 @@ func VerifSetFS(pre func(op, path string)) {
 	}
 	encodeTomlFunc = func(fileName string, v interface{}) error {
 		pre("writetoml", fileName)
+		if err := failFS("writetoml", fileName); err != nil {
+			return err
+		}
 		return ltoml.EncodeToml(fileName, v)
 	}
 	mkDirFunc = func(path string) error {
@@ -41,10 +57,16 @@ func VerifSetFS(pre func(op, path string)) {
 	}
 	removeFunc = func(name string) error {
 		pre("remove", name)
+		if err := failFS("remove", name); err != nil {
+			return err
+		}
 		return os.Remove(name)
 	}
 	removeDirFunc = func(path string) error {
 		pre("remove", path)
+		if err := failFS("remove", path); err != nil {
+			return err
+		}
 		return fileutil.RemoveDir(path)
 	}
 	newFileLockFunc = func(string) (lockers.FileLock, error) { return verifLock{}, nil }
